@@ -197,6 +197,11 @@ pub fn run_turnclient(run: &mut Run, live: &Live, op: u8, auth: bool, script: &[
     let sc: Vec<Vec<u8>> = script.to_vec();
     let total: u64 = script.iter().map(|x| x.len() as u64).sum();
     let input = format!("{op} {} {}", auth as u8, script.iter().map(|x| if x.is_empty() { "-".to_string() } else { hex(x) }).collect::<Vec<_>>().join(" "));
+    // op bit 1: once the script is used up the server repeats its LAST entry for ever (a server that keeps answering the same thing);
+    // otherwise it ends the exchange with a plain 400
+    let (permission_only, repeat) = (op & 1 == 1, op & 2 == 2);
+    let requests = Arc::new(std::sync::atomic::AtomicUsize::new(0));
+    let rq = requests.clone();
     exec(run, "turnclient", &input, "TurnClient::allocate/create_permission", nt, Some((64, 16384, total)), move || {
         l.rt.block_on(async {
             let client_sock = Arc::new(tokio::net::UdpSocket::bind("127.0.0.1:0").await.expect("bind"));
@@ -206,26 +211,31 @@ pub fn run_turnclient(run: &mut Run, live: &Live, op: u8, auth: bool, script: &[
             if auth { turn.verif_set_auth("user", "pass", "realm", "nonce"); }
             let srv = tokio::spawn(async move {
                 let mut buf = [0u8; 2048];
+                let last = sc.last().cloned();
                 let mut it = sc.into_iter();
-                // script exhausted: a plain 400 error ends the exchange (the client's own receive timeout is seconds long)
                 loop {
                     let Ok((n, from)) = server.recv_from(&mut buf).await else { break };
-                    let mut resp = it.next().unwrap_or_else(|| { let t = u16::from_be_bytes([buf[0], buf[1]]) | 0x0110; let mut v = t.to_be_bytes().to_vec(); v.extend_from_slice(&[0, 8, 0x21, 0x12, 0xA4, 0x42]); v.extend_from_slice(&[0; 12]); v.extend_from_slice(&[0, 9, 0, 4, 0, 0, 4, 0]); v });
+                    rq.fetch_add(1, std::sync::atomic::Ordering::SeqCst);
+                    let mut resp = it.next().or_else(|| if repeat { last.clone() } else { None }).unwrap_or_else(|| { let t = u16::from_be_bytes([buf[0], buf[1]]) | 0x0110; let mut v = t.to_be_bytes().to_vec(); v.extend_from_slice(&[0, 8, 0x21, 0x12, 0xA4, 0x42]); v.extend_from_slice(&[0; 12]); v.extend_from_slice(&[0, 9, 0, 4, 0, 0, 4, 0]); v });
                     if n >= 20 && resp.len() >= 20 && resp[8] != 0xEE { resp[8..20].copy_from_slice(&buf[8..20]); }
                     let _ = server.send_to(&resp, from).await;
                 }
             });
             let fut = async {
-                if op == 0 { let _ = turn.verif_allocate("user", "pass").await; if turn.verif_auth_key().is_some() { let _ = turn.verif_create_permission("127.0.0.1:9".parse().unwrap()).await; } }
+                if !permission_only { let _ = turn.verif_allocate("user", "pass").await; if turn.verif_auth_key().is_some() { let _ = turn.verif_create_permission("127.0.0.1:9".parse().unwrap()).await; } }
                 else { let _ = turn.verif_create_permission("127.0.0.1:9".parse().unwrap()).await; }
             };
-            let timed_out = tokio::time::timeout(std::time::Duration::from_secs(15), fut).await.is_err();
+            let timed_out = tokio::time::timeout(std::time::Duration::from_secs(if repeat { 3 } else { 15 }), fut).await.is_err();
             srv.abort();
             let _ = srv.await;
-            if timed_out { panic!("TURN exchange did not end within 15 s"); }
+            if timed_out { panic!("TURN exchange did not end within its deadline"); }
         });
         "noncompared".into()
     });
+    // one call = at most 3 Allocate attempts + 3 CreatePermission attempts: what the client SENDS is bounded whatever the server answers
+    let n = requests.load(std::sync::atomic::Ordering::SeqCst);
+    { let e = run.dist.entry("turnclient:max_requests_per_call".into()).or_insert(0); if n as u64 > *e { *e = n as u64; } }
+    if n > 6 { run.fail("flood:TurnClient::allocate/create_permission:requests-per-call", &format!("turnclient {input}"), &format!("the client sent {n} requests in one call (at most 3 attempts per operation are allowed)")); }
 }
 
 fn gen_binding_req(rng: &mut Rng) -> Vec<u8> {
@@ -320,7 +330,7 @@ fn cpu_time() -> f64 {
 pub fn run_iceflood(run: &mut Run, mode: u8, count: u32) {
     let case = format!("iceflood {mode} {count}");
     let r = super::catch_ack(move || {
-        let mut out = (0u64, 0u64, [0f64; 2], 0usize);
+        let mut out = (0u64, 0u64, [0f64; 2], 0usize, true);
         for (round, n) in [count / 4, count].into_iter().enumerate() {
             let live = Live::with(mode, true, None);
             let mut bytes = 0u64;
@@ -334,13 +344,22 @@ pub fn run_iceflood(run: &mut Run, mode: u8, count: u32) {
                 live.rt.block_on(live.ice.verif_handle_packet(&p, from, rustrtc::transports::ice::IceSocketWrapper::Udp(live.sock.clone())));
             }
             out.2[round] = cpu_time() - t0;
-            if round == 1 { out.0 = super::alloc_retained().max(0) as u64; out.1 = bytes; out.3 = live.ice.remote_candidates().len(); }
+            if round == 1 {
+                out.0 = super::alloc_retained().max(0) as u64; out.1 = bytes; out.3 = live.ice.remote_candidates().len();
+                // after the flood the agent must still learn a NEW source (the genuine peer behind a new NAT binding): latching and
+                // nomination work only for addresses in the candidate table
+                let mut p = vec![0u8, 1, 0, 8, 0x21, 0x12, 0xA4, 0x42]; p.extend_from_slice(&[9; 12]); p.extend_from_slice(&[0, 6, 0, 3, b'a', b':', b'b', 0]);
+                let genuine: SocketAddr = "127.9.9.9:40001".parse().unwrap();
+                live.rt.block_on(live.ice.verif_handle_packet(&p, genuine, rustrtc::transports::ice::IceSocketWrapper::Udp(live.sock.clone())));
+                out.4 = mode == 0 || live.ice.remote_candidates().iter().any(|c| c.address == genuine);
+            }
             drop(live);
         }
         out
     });
     match r {
-        Ok((retained, bytes_in, t, cands)) => {
+        Ok((retained, bytes_in, t, cands, learns)) => {
+            if !learns { run.fail("lockout:ice::handle_stun_request:learned-candidate-table-full", &case, &format!("after {count} Binding requests from distinct sources ({cands} remote candidates) a request from a new source is no longer learned: no latching or nomination from a new address for the rest of the session")); }
             run.count_n(&format!("iceflood:retained_per_input_byte_x100:{mode}"), retained * 100 / bytes_in.max(1));
             run.count_n(&format!("iceflood:cpu_ms:{mode}"), (t[1] * 1000.0) as u64);
             run.count_n(&format!("iceflood:remote_candidates:{mode}"), cands as u64);
@@ -490,10 +509,20 @@ pub fn special(run: &mut Run, rng: &mut Rng, thorough: bool) {
             run_turnclient(run, &live, 0, false, &[e401.clone(), e401.clone(), e401], true);
         } }
         run_turnclient(run, &live, 0, false, &[vec![], vec![1], vec![0; 20]], true);
+        // a server that answers every request with the same response for ever: foreign transaction id, other method, 401 again, indication, garbage
+        {
+            let mut foreign = mk(0x0100, 0x003, &[(0x0016, relayed.clone())]); foreign[8] = 0xEE;
+            let mut foreign_err = mk(0x0110, 0x003, &[(0x0009u16, vec![0, 0, 4, 1, b'x']), (0x0014, b"realm".to_vec()), (0x0015, b"nonce".to_vec())]); foreign_err[8] = 0xEE;
+            let e401 = mk(0x0110, 0x003, &[(0x0009u16, vec![0, 0, 4, 1, b'x']), (0x0014, b"realm".to_vec()), (0x0015, b"nonce".to_vec())]);
+            let p438 = mk(0x0110, 0x008, &[(0x0009u16, vec![0, 0, 4, 38, b'x']), (0x0014, b"realm".to_vec()), (0x0015, b"nonce".to_vec())]);
+            let mut pforeign = mk(0x0100, 0x008, &[]); pforeign[8] = 0xEE;
+            for sc in [vec![foreign.clone()], vec![foreign_err], vec![e401.clone()], vec![e401.clone(), foreign]] { run_turnclient(run, &live, 2, false, &sc, true); }
+            for sc in [vec![p438], vec![pforeign]] { run_turnclient(run, &live, 3, true, &sc, true); }
+        }
         for _ in 0..(if thorough { 20_000 } else { 700 }) {
-            let op = rng.below(3) as u8 % 2;
-            let auth = op == 1 || rng.chance(1, 3);
-            let sc: Vec<Vec<u8>> = (0..rng.range(1, 6)).map(|i| gen_turn_resp(rng, if op == 1 || i >= 2 { 0x008 } else { 0x003 })).collect();
+            let op = (rng.below(3) as u8 % 2) | if rng.chance(1, 6) { 2 } else { 0 };
+            let auth = op & 1 == 1 || rng.chance(1, 3);
+            let sc: Vec<Vec<u8>> = (0..rng.range(1, 6)).map(|i| gen_turn_resp(rng, if op & 1 == 1 || i >= 2 { 0x008 } else { 0x003 })).collect();
             run_turnclient(run, &live, op, auth, &sc, true);
         }
     }
